@@ -58,13 +58,17 @@ def load_known_findings():
 class Check:
     """One run of one property check."""
 
-    def __init__(self, pid: str, tier: str, seed: int, level: str):
+    def __init__(self, pid: str, tier: str, seed: int, level: str, fresh: bool = True):
         self.pid = pid
         self.tier = tier
         self.seed = seed
         self.level = level
         self.t0 = time.time()
         self.scratch = tempfile.mkdtemp(prefix=f"verif_{pid}_")
+        if fresh and os.path.isdir(REPLAY):  # replay files of earlier runs of this property are out of date now
+            for f in os.listdir(REPLAY):
+                if f.startswith(pid + "_"):
+                    os.unlink(os.path.join(REPLAY, f))
         self.violations: list[dict] = []
         self.known_hits: dict[str, int] = {}
         self.coverage: dict = {}
@@ -287,10 +291,12 @@ def replay(pid: str, path: str, modname: str, judge_module: str, prepare=None) -
     if not cases:
         print(f"replay file {path} holds no re-runnable cases")
         return 2
-    chk = Check(pid, "quick", 0, "exploration")
+    chk = Check(pid, "quick", 0, "exploration", fresh=False)
     if prepare:
         prepare(chk, cases)
+    cases = list({c["id"]: c for c in cases}.values())
     obs = drive(modname, "drive_case", cases)
+    obs = [x for o in obs for x in (o["both"] if "both" in o else [o])]  # a case may yield several observations
     verdicts = chk.judge(judge_module, obs)
     bad = 0
     for v in verdicts:
